@@ -1192,9 +1192,7 @@ func (self *ArbiterVoter) DoProposal() error {
 	}
 	self.glock.Lock()
 	self.proposalIndex = proposalIndex
-	if self.proposalId < self.proposalIndex {
-		self.proposalId = self.proposalIndex
-	}
+	self.proposalId = self.proposalIndex
 	self.glock.Unlock()
 	self.manager.slock.Log().Infof("Arbier voter do proposal succed, host %s aofId %s proposalId %d", self.voteHost, FormatAofId(self.voteAofId), self.proposalId)
 	return nil
